@@ -463,9 +463,26 @@ def r11_every_top_level_form_yields_a_value(ctx):
     ctx.ob("C01.R11", f"{COMPILER}::compile_and_exec_form::the compile loop runs at least once", COMPILER, lp.lineno, ok,
            "" if ok else f"the loop walks `{P.un(lp.iter)[:50]}`, which is empty for a top-level (do); `{P.un(sentinel_failures[0].test)[:50]}` then fails",
            witness="(do) at the REPL or in a file => AssertionError: Must compile at least one form; ((fn [] (do))) => nil")
+    # ... and the unrolling itself keeps the value: a nested (do) without forms is a form whose value
+    # is nil, not nothing -- every recursive unrolling of a do's forms stands under a test that those
+    # forms are not empty
+    fm = ctx.fn(COMPILER, "_flatmap_forms")
+    recs = [y for y in ast.walk(fm) if isinstance(y, ast.YieldFrom) and isinstance(y.value, ast.Call) and P.un(y.value.func) == "_flatmap_forms"]
+    if not recs:
+        raise AnalysisError("_flatmap_forms no longer unrolls nested do forms recursively")
+    for y in recs:
+        arg = P.un(y.value.args[0]) if y.value.args else ""
+        conds = [i for i in P.ancestors(y) if isinstance(i, ast.If) and P.contains(fm, i) and any(P.contains(b, y) for b in i.body)]
+        probes = ("is_empty", "to_seq(", "seq(", "len(")
+        ok = any(arg in P.un(i.test) and any(p in P.un(i.test) for p in probes) for i in conds)
+        ctx.ob("C01.R11", f"{COMPILER}::_flatmap_forms::a do is unrolled only if it has forms", COMPILER, y.lineno, ok,
+               "" if ok else f"`{P.un(y)}` unrolls a nested do into its forms also when it has none: the nil it denotes disappears and the enclosing top-level do yields the value of the form before it",
+               witness="(do 5 (do)) at the top level => 5; ((fn [] (do 5 (do)))) => nil")
 
 
 SELFTEST = [
+    {"name": "an empty nested do is unrolled into nothing (the repaired defect)", "file": COMPILER, "expect": "C01.R11",
+     "old": "            and not form.rest.is_empty\n", "new": ""},
     {"name": "letfn functions of a loop body share the variables of all iterations (the repaired defect)", "file": GEN, "expect": "C01.R5",
      "old": "        if ctx.is_in_loop and binding_names:\n", "new": "        if False and binding_names:\n"},
     {"name": "twin: the letfn factory test written the other way round", "file": GEN, "expect": None,
